@@ -147,3 +147,41 @@ Definition graph_of (t : tres) : graph := map (fun a => (ta_name a, ta_bonds a))
 (* restrict a graph to the nodes present (bonds to absent atoms dropped) *)
 Definition restrict (g : graph) : graph :=
   map (fun p => (fst p, filter (fun v => mem v (nodes g)) (snd p))) g.
+
+(* ---- other storage orders of the same residue ------------------------------
+   residue.atoms and atom.bonds are lists whose order is an accident of the
+   input file (and of repair_heavy, which appends rebuilt atoms): the moved set
+   must not depend on it.  [rev_graph] / [sort_graph] store the same bond graph
+   in reversed and in id (= alphabetical name) order. *)
+Definition rev_graph (g : graph) : graph := rev (map (fun p => (fst p, rev (snd p))) g).
+
+Fixpoint insert_id (a : id) (l : list id) : list id :=
+  match l with
+  | [] => [a]
+  | b :: t => if Pos.leb a b then a :: l else b :: insert_id a t
+  end.
+Definition sort_ids (l : list id) : list id := fold_right insert_id [] l.
+
+Fixpoint insert_node (p : id * list id) (l : graph) : graph :=
+  match l with
+  | [] => [p]
+  | q :: t => if Pos.leb (fst p) (fst q) then p :: l else q :: insert_node p t
+  end.
+Definition sort_graph (g : graph) : graph :=
+  fold_right insert_node [] (map (fun p => (fst p, sort_ids (snd p))) g).
+
+Definition same_set (l1 l2 : list id) : bool :=
+  forallb (fun a => mem a l2) l1 && forallb (fun a => mem a l1) l2.
+
+(* the moved set of pivot c is the same SET when the residue is stored as g' instead of g *)
+Definition same_moved (nm : names) (nt ct : bool) (g g' : graph) (c : id) : bool :=
+  match ranks nm nt ct g, ranks nm nt ct g' with
+  | Some rk, Some rk' => same_set (moveable g rk c) (moveable g' rk' c)
+  | None, None => true
+  | _, _ => false
+  end.
+
+Definition order_insensitive (nm : names) (g : graph) (c : id) : bool :=
+  forallb (fun f : bool * bool =>
+             same_moved nm (fst f) (snd f) g (rev_graph g) c && same_moved nm (fst f) (snd f) g (sort_graph g) c)
+          [(false, false); (true, false); (false, true); (true, true)].
